@@ -1,6 +1,6 @@
 (* Properties_C15.v — the theorems that decide property C15 on the model, each stated in full and closed by
    `exact <lemma>`; the lemmas live in the Proofs_*.v files.  Nothing else belongs in this file. *)
-From Theo Require Import Base Regex Tokens Lexer Errors Scan SpecLex Gen_Lexer LexStatements Proofs_Lexer Proofs_Scan.
+From Theo Require Import Base Regex Tokens Lexer Errors Scan SpecLex Gen_Lexer LexStatements Proofs_Lexer Proofs_Scan RequestsStatements MacroExtract Grammar LR MacroApply Parser VMModel GenModel Compile Gen_Consts LocErrStatements Proofs_Requests.
 Local Open Scope nat_scope.
 
 
@@ -32,3 +32,12 @@ Theorem C15_scan_is_splice :
     scan_file rules d files active fn c = splice rules files d active fn.
 Proof. exact scan_file_splice. Qed.
 Print Assumptions C15_scan_is_splice.
+
+Theorem C15_compiled_requests :
+  forall files main c, compile files main = Ok c ->
+    exists toks serrs,
+      scan Gen_Lexer.rules (seen_files files main) main = Ok (toks, serrs) /\
+      cr_requests c = map pe_request (filter is_request serrs) /\
+      (forall n, In n (cr_requests c) -> fcontains (seen_files files main) n = false).
+Proof. exact C15_compiled_requests_proof. Qed.
+Print Assumptions C15_compiled_requests.
